@@ -248,6 +248,35 @@ where
     total.caps_hit.extend(st.caps_hit);
 }
 
+/// every pair of policy deviations (from different axes) set before the first insertion
+fn run_pairs<K, const D: usize>(rep: &Report, kname: &'static str, label: &str, alphabet: Vec<[f64; D]>, depth: usize, total: &mut Stats, bounds: &mut Vec<Value>)
+where
+    K: Kernel<D, Scalar = f64> + Sync + Send,
+    DtI<K, D>: Send + Sync,
+{
+    let m = M::<K, D> { rep, seed_pts: vec![], kname, label: label.to_string(), alphabet, policy_bound: 0, policy_until_vertices: 0, switch_mode: false, switch_max_vertices: 0, latent: &LATENT, checked_refusals: &REFUSALS, _k: std::marker::PhantomData };
+    let axes: Vec<Vec<Op>> = vec![(1..4).map(Op::SetVP).collect(), (1..3).map(Op::SetTG).collect(), (1..3).map(Op::SetRP).collect(), (1..3).map(Op::SetCP).collect()];
+    let mut seeds: Vec<(St<K, D>, Vec<Op>)> = Vec::new();
+    for a in 0..axes.len() {
+        for b in a + 1..axes.len() {
+            for x in &axes[a] {
+                for y in &axes[b] {
+                    let mut dt: DtI<K, D> = DelaunayTriangulation::with_empty_kernel(K::default());
+                    model::apply(&mut dt, x, &m.alphabet);
+                    model::apply(&mut dt, y, &m.alphabet);
+                    seeds.push((St { dt, policy_changes: 0 }, vec![x.clone(), y.clone()]));
+                }
+            }
+        }
+    }
+    let nseeds = seeds.len();
+    let st = bfs(&m, seeds, depth, &Caps { max_states_per_level: 3_000_000, wall_s: 0.0 });
+    bounds.push(json!({"D": D, "kernel": kname, "family": label, "alphabet": m.alphabet.len(), "seeds": nseeds, "depth": st.depth_completed, "states": st.states, "transitions": st.transitions, "levels": st.level_sizes, "caps_hit": st.caps_hit}));
+    total.states += st.states;
+    total.transitions += st.transitions;
+    total.caps_hit.extend(st.caps_hit);
+}
+
 fn both<const D: usize>(rep: &Report, label: &str, alphabet: Vec<[f64; D]>, seed_pts: &[[f64; D]], depth: usize, policy_bound: u8, devs: bool, total: &mut Stats, bounds: &mut Vec<Value>) {
     run::<FastKernel<f64>, D>(rep, "fast", label, alphabet.clone(), seed_pts, depth, policy_bound, devs, total, bounds);
     run::<RobustKernel<f64>, D>(rep, "robust", label, alphabet, seed_pts, depth, policy_bound, devs, total, bounds);
@@ -277,6 +306,13 @@ fn main() {
     let wide2: Vec<[f64; 2]> = vec![[0.0, 0.0], [2.0, 0.0], [1.0, 0.25], [1.0, -0.5], [6.0, 0.0], [6.0, 3.0], [5.5, 1.0], [0.0, 1.0], [3.0, 3.0]];
     run_switch::<FastKernel<f64>, 2>(&rep, "fast", "flat triangle + outliers, switch-on after latent violation", wide2.clone(), 5 + x, &mut total, &mut bounds);
     run_switch::<RobustKernel<f64>, 2>(&rep, "robust", "flat triangle + outliers, switch-on after latent violation", wide2, 5 + x, &mut total, &mut bounds);
+    // pairs of policy deviations from the start (a guard that is skipped under one setting is often backed up by another
+    // one that a second setting switches off): points on hull edges / facets included
+    run_pairs::<FastKernel<f64>, 2>(&rep, "fast", "G2(3) from empty, pairs of policy deviations", g3.clone(), 4 + x, &mut total, &mut bounds);
+    run_pairs::<RobustKernel<f64>, 2>(&rep, "robust", "G2(3) from empty, pairs of policy deviations", g3.clone(), 4 + x, &mut total, &mut bounds);
+    let onf3: Vec<[f64; 3]> = vec![[0.0, 0.0, 0.0], [2.0, 0.0, 0.0], [0.0, 2.0, 0.0], [0.0, 0.0, 2.0], [1.0, 1.0, 0.0], [0.5, 0.5, 0.0], [0.5, 0.5, 0.5]];
+    run_pairs::<FastKernel<f64>, 3>(&rep, "fast", "tetrahedron + on-facet points from empty, pairs of policy deviations", onf3.clone(), 5 + x, &mut total, &mut bounds);
+    run_pairs::<RobustKernel<f64>, 3>(&rep, "robust", "tetrahedron + on-facet points from empty, pairs of policy deviations", onf3, 5 + x, &mut total, &mut bounds);
     // D=3
     let mut c3 = alpha::grid::<3>(2);
     c3.push([0.5; 3]);
